@@ -6,7 +6,12 @@ Threads of the real code and where they are in the model:
 
 * the **child** (`Child`, the two `Side.pending`): writes its planned bytes to either stream in any
   order and granularity, blocks on a full pipe, gets `EPIPE`/`SIGPIPE` once the runner has closed the
-  read end, ends as planned (exit code, own signal, or never);
+  read end, may **close its end of a stream (or redirect it elsewhere) and keep running**
+  (`childClose`, `Side.wopen`: after its last byte to that stream — one stream, the other, or both,
+  having written nothing, something, or everything — and then sleep, exit later, or never exit),
+  ends as planned (exit code, own signal, or never). `Plan.out`/`Plan.err` are the bytes the child
+  writes to a stream *while it has it open*: a `write` after the `close` fails with `EBADF` (or goes
+  to whatever the descriptor was redirected to) and reaches no pipe, so it is not part of the plan;
 * two **reader threads** (`read_captured_stream`, `Side.rd`/`Side.acc`): `read` (≤ `chunk` bytes,
   blocking), `n == 0 → break`, `buf.len() + n > max →` CAS on the overflow flag `(0 → code)` and
   `break` (the buffer keeps what it had: a *truncated* prefix), else `extend`; a `read` may also
@@ -20,24 +25,70 @@ Threads of the real code and where they are in the model:
   when the thread ends. The child reads its stdin or not, and closes it, as it likes
   (`childRead`, `childCloseIn`);
 * the **main thread** (`Pc`): `wait_for_child` (`load` flag → kill path; `try_wait`; deadline check;
-  `sleep`), `terminate_child` (`kill`, `wait`), then — **after** the wait loop — `join_writer`
+  `sleep` — on **every** iteration, whatever the reader threads have seen: end of file on a captured
+  stream says that the child closed a descriptor, not that it is about to exit), `terminate_child`
+  (`kill`, `wait`), then — **after** the wait loop — `join_writer`
   (an `Err` of the writer is `SpawnFailed`, `Err.writeFailed`; ignored on the error path), then
   `join_capture` twice (join the reader, re-load the flag, `String::from_utf8`), on the error path
   with the results ignored. `stepMainWF` is the *other* order (writer joined before the wait loop,
-  seeded change C16-c2), kept to show by a concrete execution that it is wrong.
+  seeded change C16-c2) and `stepMainWE` the wait loop that stops polling and calls the blocking
+  `child.wait()` once every captured stream is at end of file (seeded change C16-d1); both are kept to
+  show by a concrete execution that they are wrong.
 
 Every read and write of the shared flag is its own step. Executions are arbitrary interleavings:
 `run` applies any list of labels whose steps are all enabled.
 
-Assumed about the OS (this is what makes C16 *partial*): a pipe delivers bytes in order, `read`
-returns `min(requested, available)` and `0` only when the pipe is empty and the child is gone
-(no grandchild keeps the write end open); a write to a pipe blocks while it is full and fails with
-`EPIPE` exactly when the read end is closed (the child closed it or is dead; no grandchild holds
-it); `SIGKILL` turns a live child into a zombie; `wait`/`try_wait` reap a zombie; `try_wait`,
-`kill`, `wait` and thread joins do not fail and threads do not panic (`spawn` failing is outside the
-model); *which* reads / writes fail is arbitrary (any `rdFail`/`wrFail` whenever a `read`/`write` is
-pending). What the stdin text *is* and whether the child receives it is C15, not modelled: only its
-length matters here. The child's age and the runner's clock tick together (`age`, `now`).
+Assumed about the OS (this is what makes C16 *partial*). After each item: could a realistic change
+of the Rust code hide behind it, and what the tie (`checks/c16.py`, family `capture`) does about it.
+
+1. A pipe delivers bytes in order, `read` returns `min(requested, available)` when there is data, and
+   `0` exactly when the pipe is empty and **every write end is closed**. The child's own write end is
+   modelled (`Side.wopen`: it closes when the child closes or redirects the descriptor, or is gone).
+   *Could hide a change:* yes — any shortcut that takes "the readers have finished" for "the child has
+   finished" (seeded change C16-d1: blocking `wait` once the readers are done) lives exactly here; this
+   is why "`0` only when the child is gone", which earlier versions of this file assumed, is no longer
+   assumed. Tie: `corpus/C16/close.txt` and `gen --mode close` (children that close / redirect stdout,
+   stderr or both at a chosen point and go on); source tie `gen_wait_loop_polls_unconditionally`.
+2. **No other process holds a write end**: the write ends of the capture pipes exist only in the child.
+   A grandchild that inherits them and outlives the child keeps them open after the child is reaped:
+   the readers then do *not* see end of file when the child is gone, `rdEof` is not enabled, and
+   `join_capture` blocks for as long as the grandchild lives — on the success path, on the timeout
+   path, and on the overflow path when the *other* captured stream is still held (`kill` reaches the
+   child only). Observed on the unchanged tree (helper child token `F<ms>`): the run returns when the
+   grandchild exits, seconds after a 300 ms timeout; never, if it never exits. *Could hide a change:*
+   yes, and it hides a property of the unchanged code (not of a change): see DESIGN.md §5 C16 and
+   `corpus/C16/grandchild.txt`; the model is deliberately not extended to make that behaviour
+   "allowed". Everything proved here is for children whose descendants do not keep the pipes open;
+   the tie runs a grandchild that detaches (`G<ms>`) and one that inherits no pipe (`F<ms>`, nothing
+   captured): the runner must not wait for either.
+3. A write to a pipe blocks while it is full and fails with `EPIPE` exactly when the read end is closed
+   (the runner's reader stopped; for stdin: the child closed it or is dead, and no grandchild holds it).
+   *Could hide a change:* hardly — the runner's only writes are the stdin writer's, and what it does on
+   `EPIPE` is modelled (`wrEpipe`) and tied (`gen_writer_joined_after_wait`, `capture-stdin`); a
+   grandchild holding the *stdin* read end makes the writer block after the child is gone — same
+   finding as item 2, same scenarios (`F…` with `stdin=`).
+4. `SIGKILL` turns a live child into a zombie; `wait`/`try_wait` reap a zombie and only a zombie.
+   *Could hide a change:* no realistic one — a change that stops killing or stops reaping is a change
+   of the modelled statements (`Pc.kill`, `Pc.reap`), caught by the tie's "pid must be gone" oracle.
+5. `try_wait`, `kill`, `wait` and thread joins do not fail and threads do not panic (`spawn` failing is
+   outside the model). *Could hide a change:* a little — an `Err` of `try_wait` leaves `wait_for_child`
+   as `SpawnFailed` past `terminate_child` (the child is neither killed nor reaped on that path, the
+   joins follow). It needs no code change to happen, only an environment: a runner that *inherits*
+   `SIGCHLD = SIG_IGN` (`trap '' CHLD; exec …`) has its children reaped by the kernel, `try_wait` then
+   fails with `ECHILD` once the child has exited, and every ordinary run ends in `SpawnFailed`
+   (observed; the child is gone by then, nothing is shortened). A process-wide signal disposition
+   cannot be part of a scenario of the shared harness: stays assumed, reported in DESIGN.md. A panic
+   in a reader thread would need a change of the reader loop, which the `rd` stream runs directly.
+6. *Which* reads / writes fail is arbitrary (any `rdFail`/`wrFail` whenever a `read`/`write` is
+   pending). *Could hide a change:* no — this is a generality, not a restriction (seed C16-c1 landed
+   where it used to be one).
+7. The child's age and the runner's clock tick together (`age`, `now`), and the timing theorems are for
+   *prompt* executions. *Could hide a change:* only one that moves `Instant::now()` relative to the
+   spawn (seed C16-c2 did, by joining the writer first; `gen_writer_joined_after_wait`) or that stops
+   looking at the clock under some condition (C16-d1; `gen_wait_loop_polls_unconditionally`).
+
+What the stdin text *is* and whether the child receives it is C15, not modelled: only its length
+matters here.
 
 Core-only imports (linked into `nvdriver`).
 -/
@@ -176,6 +227,7 @@ structure Side where
   pipe    : Bytes
   acc     : Bytes      -- the reader's `buf`
   rd      : Rd
+  wopen   : Bool       -- the child still has its end of the stream open (not closed / redirected)
 deriving DecidableEq, Repr
 
 inductive Cause where
@@ -221,6 +273,8 @@ inductive Pc where
   | flagErr (st : Option Nat) (ro : Option Bytes)
   | done (r : Outcome)
   | preJoinWr                                -- only in `stepMainWF`: `join_writer` *before* the wait loop
+  | drainFlag (wake : Nat)                   -- only in `stepMainWE`: readers all finished; `overflow.load() == 0`?
+  | blockWait                                -- only in `stepMainWE`: the blocking `child.wait()`
 deriving DecidableEq, Repr
 
 structure State where
@@ -253,7 +307,7 @@ def fromCode (c : Nat) : Strm := if c = 1 then .out else .err
 
 def Side.init (pol : Policy) (bytes : Bytes) : Side :=
   { pending := bytes, written := [], pipe := [], acc := [],
-    rd := if pol = .capture then .idle else .absent }
+    rd := if pol = .capture then .idle else .absent, wopen := true }
 
 def Inp.init : Option Nat → Inp
   | none => { pending := 0, pipe := 0, wr := .absent, childOpen := true }
@@ -266,9 +320,10 @@ def init (cfg : Cfg) (plan : Plan) : State :=
 /-! ## Steps of one side -/
 
 /-- The child writes the next `n` bytes: to the pipe if the stream is captured (blocks when they do
-not fit; fails when the read end is closed), into the void otherwise. -/
+not fit; fails when the read end is closed), into the void otherwise. Impossible once the child has
+closed its end of the stream. -/
 def Side.write (pipeCap : Nat) (d : Side) (n : Nat) : Option Side :=
-  if n = 0 ∨ d.pending.length < n then none else
+  if n = 0 ∨ d.pending.length < n ∨ d.wopen = false then none else
   match d.rd with
   | .absent => some { d with pending := d.pending.drop n, written := d.written ++ d.pending.take n }
   | .idle | .got _ =>
@@ -294,11 +349,18 @@ def Side.read (chunk : Nat) (d : Side) : Option Side :=
       else some { d with rd := .got (d.pipe.take chunk), pipe := d.pipe.drop chunk }
   | _ => none
 
-/-- `read` returns 0: the pipe is empty and every write end is closed. -/
+/-- `read` returns 0: the pipe is empty and every write end is closed — the child is gone, **or it
+has closed its end and lives on**. -/
 def Side.eof (childAlive : Bool) (d : Side) : Option Side :=
   match d.rd with
-  | .idle => if d.pipe = [] ∧ childAlive = false then some { d with rd := .eof } else none
+  | .idle =>
+      if d.pipe = [] ∧ (childAlive = false ∨ d.wopen = false) then some { d with rd := .eof } else none
   | _ => none
+
+/-- The child closes its end of the stream (`close(1)`, `exec 1>&-`, `dup2(open("/dev/null"), 1)`, a
+daemon detaching) after its last byte to it, and keeps running. What is in the pipe stays readable. -/
+def Side.close (d : Side) : Option Side :=
+  if d.wopen = true ∧ d.pending = [] then some { d with wopen := false } else none
 
 /-- `reader.read(&mut chunk)` returns `Err` (whatever the pipe holds, whether or not the child is
 alive): `?` ends the thread. -/
@@ -393,6 +455,7 @@ inductive Label where
   | childDrop (x : Strm) (n : Nat)
   | childSigpipe (x : Strm)
   | childEnd
+  | childClose (x : Strm) -- the child closes (or redirects away) its stdout / stderr and keeps running
   | rdRead (x : Strm)
   | rdCheck (x : Strm)
   | rdEof (x : Strm)
@@ -468,6 +531,8 @@ def stepMain (cfg : Cfg) (s : State) : Option State :=
           else some { s with pc := .done (.error (.badUtf8 .err)) }
   | .done _ => none
   | .preJoinWr => none      -- not a statement of this program
+  | .drainFlag _ => none    -- not a statement of this program
+  | .blockWait => none      -- not a statement of this program
 
 def step (cfg : Cfg) (plan : Plan) (s : State) : Label → Option State
   | .childWrite x n =>
@@ -484,6 +549,8 @@ def step (cfg : Cfg) (plan : Plan) (s : State) : Label → Option State
         | some st => some { s with child := .zombie st .plan }
         | none => none
       else none
+  | .childClose x =>
+      if s.child.isAlive then (Side.close (s.side x)).map (s.setSide x) else none
   | .rdRead x => (Side.read cfg.chunk (s.side x)).map (s.setSide x)
   | .rdCheck x =>
       (Side.check cfg.cap (code x) s.flag (s.side x)).map (fun r => { s.setSide x r.1 with flag := r.2 })
@@ -553,6 +620,48 @@ def runWF (cfg : Cfg) (plan : Plan) : State → List Label → Option State
       | none => none
 
 def initWF (cfg : Cfg) (plan : Plan) : State := { init cfg plan with pc := .preJoinWr }
+
+/-! ## The wait loop that stops polling at end of file (seeded change C16-d1)
+
+```text
+loop {
+    if overflow.load() != 0 { terminate_child; return Err(OutputLimitExceeded) }
+    if let Some(status) = child.try_wait()? { return Ok(status) }
+    if start.elapsed() >= timeout { terminate_child; return Err(Timeout) }
+    if captures_drained(readers) && overflow.load() == 0 { return child.wait() }   // <- added
+    thread::sleep(sleep_for);
+}
+```
+`captures_drained`: at least one stream is captured and every capture reader thread has returned
+(`JoinHandle::is_finished`). From then on neither the clock nor the flag is looked at again. -/
+
+/-- `captures_drained`. -/
+def State.drained (s : State) : Bool :=
+  (s.o.rd != .absent || s.e.rd != .absent) && s.o.finished && s.e.finished
+
+def stepMainWE (cfg : Cfg) (s : State) : Option State :=
+  match s.pc with
+  | .deadline =>
+      if cfg.timeout ≤ s.now then some { s with pc := .kill .timeout }
+      else if s.drained then some { s with pc := .drainFlag (s.now + max cfg.poll 1) }
+      else some { s with pc := .sleep (s.now + max cfg.poll 1) }
+  | .drainFlag wake =>
+      if s.flag = 0 then some { s with pc := .blockWait } else some { s with pc := .sleep wake }
+  | .blockWait =>
+      match s.child with
+      | .zombie st c => some { s with child := .reaped st c, pc := .joinWr st }
+      | _ => none
+  | _ => stepMain cfg s
+
+def stepWE (cfg : Cfg) (plan : Plan) (s : State) (l : Label) : Option State :=
+  if l = .main then stepMainWE cfg s else step cfg plan s l
+
+def runWE (cfg : Cfg) (plan : Plan) : State → List Label → Option State
+  | s, [] => some s
+  | s, l :: ls =>
+      match stepWE cfg plan s l with
+      | some s' => runWE cfg plan s' ls
+      | none => none
 
 /-- The main thread is *prompt* in an execution: time passes only while it is blocked (it is never
 descheduled with a statement ready to run, and `sleep` does not oversleep). `mainF`/`stepF` select
